@@ -194,7 +194,10 @@ def make_distance_matrix_from_adjacency_matrix(AG):
         representation of G based on its shortest path lengths.
     """
     # Convert adjacency matrix to SciPy format if needed.
-    if not sps.issparse(AG) and not isinstance(AG, np.ndarray):
+    if sps.issparse(AG):
+        # the csgraph routines accept csr, csc and lil storage only
+        AG = AG.tocsr()
+    elif not isinstance(AG, np.ndarray):
         AG = np.asarray(AG)
 
     # Compile distance matrix of the graph based on its shortest path
